@@ -38,11 +38,12 @@ func main() {
 		"WayNode.FeatureID", "WayNode.ElementID", "Member.FeatureID", "Member.ElementID",
 	}
 	text := tr.EmitFuncs2(p, "generator: ids", keys)
-	text = append(text, []byte("\n(* literals and calls of the text functions (hand-modelled in C10/Model.v) *)\n")...)
-	text = append(text, tr.EmitLiterals(p, []string{"ObjectID.String", "ElementID.String", "FeatureID.String",
-		"ParseObjectID", "ParseElementID", "ParseFeatureID",
-		// loops hand-modelled in C10/Model.v (counts_step_*, elements_*_ids, objects_object_ids)
-		"FeatureIDs.Counts", "ElementIDs.Counts", "Elements.ElementIDs", "Elements.FeatureIDs", "Objects.ObjectIDs"})...)
+	samples, err := emitSamples(repo, out)
+	if err != nil {
+		fmt.Fprintln(os.Stderr, "translator ids:", err)
+		os.Exit(1)
+	}
+	text = append(text, samples...)
 	if err := tr.Emit(filepath.Join(out, "GenIds.v"), text); err != nil {
 		fmt.Fprintln(os.Stderr, err)
 		os.Exit(1)
